@@ -189,7 +189,10 @@ class Model:
             for i, ln in zip(idxs, lines):
                 results[i] = parse_sx(ln)
         return results
+    marg = None
     def run1(self, fn, arg):
+        if self.marg:
+            arg = norm(self.marg(fn, arg))
         p = subprocess.run(['bash', '-c', 'ulimit -s unlimited 2>/dev/null; exec "%s"' % self.path], input='%d %s\n' % (fn, sx(arg)), capture_output=True, text=True)
         return parse_sx(p.stdout.strip())
 
@@ -433,9 +436,12 @@ def run_check(mod, tier, seed):
         plain = [(fn, arg) for (_, fn, arg) in cases]
         model_ok = ok
         mouts = []
+        marg = getattr(mod, 'model_arg', None)
+        if marg:
+            ck.model.marg = marg
         if ok:
             try:
-                mouts = ck.model.run(plain, ck.rundir)
+                mouts = ck.model.run([(fn, norm(marg(fn, arg))) for (fn, arg) in plain] if marg else plain, ck.rundir)
             except Exception as e:
                 model_ok = False
                 broken_obligations.append('extracted model runner failed: %r' % (e,))
@@ -666,7 +672,9 @@ def replay(mod, path):
         fn = rec['fn']; arg = rec['arg']
         if rec.get('property_failing_arg') is not None:
             arg = rec['property_failing_arg']
-        m = Model(mod.ID).run1(fn, arg)
+        mdl = Model(mod.ID)
+        mdl.marg = getattr(mod, 'model_arg', None)
+        m = mdl.run1(fn, arg)
         i = mod.FUNCS[fn][1](arg)
         print('model :', m)
         print('impl  :', i)
